@@ -13,13 +13,13 @@ REAL = ["train_* routines incl. all update functions", "optimisers", "target upd
 STUB = ["environment (SimEnv)", "sampler", "logger (ProbeLogger, receives live modules)"]
 ASSUMPTIONS = ["event granularity only: contamination between two routines scheduled on the same event is visible only through optimiser step counters",
                "logger keys listed in the routines' docstrings mark the end of each update"]
-TIERS = {"quick": {"runs": 66}, "thorough": {"runs": 1500}}
+TIERS = {"quick": {"runs": 80}, "thorough": {"runs": 1500}}
 REQUIRED = ["update_events_checked", "optimizer_steps_exact", "warmup_iterations_observed"]
 REQUIRED_QUICK = REQUIRED
 SHRINK_LISTS = [["env", "script"]]
 SHRINK_INTS = []
 CLAUSES = ["C05", "C11.d"]
-ADAPTERS = ["ddpg", "td3", "td3_lap", "sac", "dqn", "nature_dqn", "ddqn", "ddqn_per", "td7", "mrq", "pets"]
+ADAPTERS = ["ddpg", "td3", "td3_lap", "sac", "dqn", "nature_dqn", "ddqn", "ddqn_per", "td7", "mrq", "pets", "reinforce", "actor_critic", "a2c", "ppo", "cmaes"]
 
 
 def make_plan(rng, tier, index):
